@@ -13,6 +13,7 @@ import (
 	"crypto/rand"
 	"crypto/rsa"
 	"crypto/x509"
+	"encoding/binary"
 	"encoding/json"
 	"fmt"
 	"io"
@@ -45,6 +46,7 @@ type cfgT struct {
 	Order   string `json:"order"`
 	BlobFor string `json:"blobFor"`
 	PgpFor  string `json:"pgpFor"`
+	PgpRing bool   `json:"pgpRing"`
 	Path    string `json:"path"`
 	Prior   string `json:"prior"`
 }
@@ -191,6 +193,121 @@ func jarCms(path string) []byte {
 	return nil
 }
 
+// apkV2Signer reads the APK Signature Scheme v2 block (from the scheme's description: the APK Signing Block before the
+// central directory, id 0x7109871a) with the harness's own code: the certificates of the first signer, in order, and
+// whether its first signature verifies over the signed data under the FIRST certificate.
+func apkV2Signer(path string) (certsOut []*x509.Certificate, sigErr error, err error) {
+	d, err := os.ReadFile(path)
+	if err != nil {
+		return nil, nil, err
+	}
+	eocd := bytes.LastIndex(d, []byte{0x50, 0x4b, 0x05, 0x06})
+	if eocd < 0 {
+		return nil, nil, fmt.Errorf("no end of central directory")
+	}
+	cd := int(binary.LittleEndian.Uint32(d[eocd+16:]))
+	if cd < 24 || string(d[cd-16:cd]) != "APK Sig Block 42" {
+		return nil, nil, fmt.Errorf("no APK signing block")
+	}
+	size := int(binary.LittleEndian.Uint64(d[cd-24:]))
+	blk := d[cd-size-8+8 : cd-24] // the id-value pairs
+	lp := func(b []byte) ([]byte, []byte, bool) { // 4-byte length prefixed
+		if len(b) < 4 {
+			return nil, nil, false
+		}
+		n := int(binary.LittleEndian.Uint32(b))
+		if len(b) < 4+n {
+			return nil, nil, false
+		}
+		return b[4 : 4+n], b[4+n:], true
+	}
+	for len(blk) >= 12 {
+		n := int(binary.LittleEndian.Uint64(blk))
+		if n < 4 || len(blk) < 8+n {
+			break
+		}
+		id, val := binary.LittleEndian.Uint32(blk[8:]), blk[12:8+n]
+		blk = blk[8+n:]
+		if id != 0x7109871a {
+			continue
+		}
+		signers, _, ok := lp(val)
+		if !ok {
+			return nil, nil, fmt.Errorf("v2 block: signers")
+		}
+		signer, _, ok := lp(signers)
+		if !ok {
+			return nil, nil, fmt.Errorf("v2 block: signer")
+		}
+		signedData, rest, ok := lp(signer)
+		if !ok {
+			return nil, nil, fmt.Errorf("v2 block: signed data")
+		}
+		sigs, _, ok := lp(rest)
+		if !ok {
+			return nil, nil, fmt.Errorf("v2 block: signatures")
+		}
+		_, afterDigests, ok := lp(signedData)
+		if !ok {
+			return nil, nil, fmt.Errorf("v2 block: digests")
+		}
+		certSeq, _, ok := lp(afterDigests)
+		if !ok {
+			return nil, nil, fmt.Errorf("v2 block: certificates")
+		}
+		for len(certSeq) > 0 {
+			var c []byte
+			c, certSeq, ok = lp(certSeq)
+			if !ok {
+				return nil, nil, fmt.Errorf("v2 block: certificate")
+			}
+			x, perr := x509.ParseCertificate(c)
+			if perr != nil {
+				return nil, nil, perr
+			}
+			certsOut = append(certsOut, x)
+		}
+		if len(certsOut) == 0 {
+			return nil, nil, fmt.Errorf("v2 block: no certificates")
+		}
+		one, _, ok := lp(sigs)
+		if !ok || len(one) < 8 {
+			return certsOut, fmt.Errorf("no signature"), nil
+		}
+		alg := binary.LittleEndian.Uint32(one)
+		sig, _, ok := lp(one[4:])
+		if !ok {
+			return certsOut, fmt.Errorf("signature framing"), nil
+		}
+		var h crypto.Hash
+		switch alg {
+		case 0x0103, 0x0201, 0x0101:
+			h = crypto.SHA256
+		case 0x0104, 0x0202, 0x0102:
+			h = crypto.SHA512
+		default:
+			return certsOut, nil, nil // an algorithm this reader does not know: no verdict on the value
+		}
+		w := h.New()
+		w.Write(signedData)
+		dg := w.Sum(nil)
+		switch pk := certsOut[0].PublicKey.(type) {
+		case *rsa.PublicKey:
+			if alg == 0x0101 || alg == 0x0102 {
+				sigErr = rsa.VerifyPSS(pk, h, dg, sig, &rsa.PSSOptions{SaltLength: rsa.PSSSaltLengthEqualsHash, Hash: h})
+			} else {
+				sigErr = rsa.VerifyPKCS1v15(pk, h, dg, sig)
+			}
+		case *ecdsa.PublicKey:
+			if !ecdsa.VerifyASN1(pk, dg, sig) {
+				sigErr = fmt.Errorf("ECDSA verification failed")
+			}
+		}
+		return certsOut, sigErr, nil
+	}
+	return nil, nil, fmt.Errorf("no v2 signature in the signing block")
+}
+
 func replayOne(r *res.Result, w *world, b *beh, n int) {
 	c := b.Cfg
 	key := map[string]string{"engine": "keycert", "path": c.Path}
@@ -205,7 +322,36 @@ func replayOne(r *res.Result, w *world, b *beh, n int) {
 			r.Count("skipped_no_pgp_cert", 1)
 			return
 		}
-		fmt.Fprintf(&sb, "    pgpcertificate: %s\n", w.ids[c.PgpFor].pgpPath)
+		pp := w.ids[c.PgpFor].pgpPath
+		if c.PgpRing {
+			// the same certificate followed by that of a key unrelated to both the token key and pgpFor
+			other := ""
+			for _, cand := range []string{"rsaB", "p384A", "rsaA"} {
+				if cand != c.Priv && cand != c.PgpFor && w.ids[cand] != nil && w.ids[cand].pgpPath != "" {
+					other = w.ids[cand].pgpPath
+					break
+				}
+			}
+			if other == "" {
+				r.Count("skipped_no_pgp_cert", 1)
+				return
+			}
+			a, _ := os.ReadFile(pp)
+			b2, _ := os.ReadFile(other)
+			// binary keyring: de-armor both and concatenate (an armored file holds one block)
+			var ring bytes.Buffer
+			for _, blob := range [][]byte{a, b2} {
+				blk, err := armor.Decode(bytes.NewReader(blob))
+				if err != nil {
+					panic(err)
+				}
+				io.Copy(&ring, blk.Body)
+			}
+			pp = filepath.Join(w.dir, fmt.Sprintf("ring-%d.pgp", n))
+			os.WriteFile(pp, ring.Bytes(), 0600)
+			r.Count("pgp_rings", 1)
+		}
+		fmt.Fprintf(&sb, "    pgpcertificate: %s\n", pp)
 	}
 	cp := filepath.Join(w.dir, fmt.Sprintf("relic-%d.yml", n))
 	os.WriteFile(cp, []byte(sb.String()), 0600)
@@ -313,6 +459,22 @@ func replayOne(r *res.Result, w *world, b *beh, n int) {
 				r.Count("cms_sig_verified_independently", 1)
 			}
 			r.Count("cms_chain_order_checked", 1)
+		}
+	}
+	// ... and for the APK signing block
+	if c.Path == "apk" {
+		cl, sigErr, err := apkV2Signer(out)
+		switch {
+		case err != nil:
+			r.Note("apk v2 block not readable by the harness reader: %v", err)
+		case !samePub(cl[0].PublicKey, priv.Public()):
+			fail("chain-order", "the APK v2 signer's certificate list does not begin with the leaf (first certificate: %q)", cl[0].Subject)
+			return
+		case sigErr != nil:
+			fail("sig-under-leaf", "the APK v2 signature does not verify under the first certificate's public key: %v", sigErr)
+			return
+		default:
+			r.Count("apk_chain_order_checked", 1)
 		}
 	}
 	r.Count("emitted", 1)
